@@ -20,7 +20,7 @@ TCompiled == /\ Ev("compiled")
                          ELSE [ok |-> FALSE] IN
                 /\ res' = r
                 /\ devs' = Add(devs, CompileTags(I, HT, inp, r)
-                                     \cup (IF e.ok /\ (e.exact # e.is_exact \/ e.cval # e.bv) THEN {"C02 completion-inconsistent-with-accessors"} ELSE {}))
+                                     \cup (IF e.ok /\ (e.exact # e.is_exact \/ e.cval # e.bv) THEN {"DIV completion-inconsistent-with-accessors"} ELSE {}))
              /\ UNCHANGED <<I, HT, inp, run>>
 TCutset == /\ Ev("cutset")
            /\ devs' = Add(devs, CutsetTags(I, HT, inp, res, {SP(Rec[l].nodes[i]) : i \in DOMAIN Rec[l].nodes}))
